@@ -468,7 +468,7 @@ func main() {
 				cmd := exec.CommandContext(ctx, b, args...)
 				cmd.Dir = work // HDL generators write into the CWD: one scratch dir per shard
 				cmd.Env = append(append([]string{}, baseEnv...), "VERIF_STATS="+sr.stats, "VERIF_FAILDIR="+sr.faildir,
-					fmt.Sprintf("VERIF_SEED=%d", rseed), fmt.Sprintf("VERIF_SHARD=%d", k), fmt.Sprintf("VERIF_NSHARDS=%d", n),
+					fmt.Sprintf("VERIF_SEED=%d", rseed), fmt.Sprintf("VERIF_BASE_SEED=%d", seed), fmt.Sprintf("VERIF_SHARD=%d", k), fmt.Sprintf("VERIF_NSHARDS=%d", n),
 					fmt.Sprintf("VERIF_CHECKS=%d", r.Checks[tier]), "VERIF_WORK="+work, "VERIF_HARNESS="+harness)
 				cmd.Env = append(cmd.Env, r.Env...)
 				if r.Race {
